@@ -41,9 +41,15 @@ def gen_selection(rng, n, tier):
         for p in list(spec):
             if spec[p] is None and rng.random() < 0.3:
                 spec[p + "/.hf"] = "C:" + p + "/.hf"
-            if spec[p] is None and rng.random() < 0.2:
-                spec[p + "/.hd"] = None
-                spec[p + "/.hd/in_hidden"] = "C:hid"
+            if spec[p] is None and rng.random() < 0.3:
+                # one to four hidden sibling directories (adjacent in any listing order — a traversal that
+                # prunes while iterating skips every second one), some with hidden directories inside
+                for hd in rng.sample([".hd", ".git", ".cache", ".x"], rng.randint(1, 4)):
+                    spec[p + "/" + hd] = None
+                    spec[p + "/" + hd + "/in_hidden"] = "C:hid" + hd
+                    if rng.random() < 0.3:
+                        spec[p + "/" + hd + "/.deep"] = None
+                        spec[p + "/" + hd + "/.deep/f"] = "C:deep" + hd
         mode = rng.choice(["name", "path", "directory"])
         explicit = []
         if mode != "directory" and rng.random() < 0.3:
